@@ -60,6 +60,66 @@ def multiplexed(kind, serial, pages='natural', fserial=7777):
     return path, m
 
 
+def mux_split(kind, serial, per_page=2, every=5, fserial=7777, **over):
+    """Encoder-made link re-paged so that every `every`-th audio packet (>= 256 bytes) is split after its first 255-byte segment: the page that
+    finishes it carries nothing but the packet's tail.  A foreign logical stream is multiplexed in; at the 1st, 3rd, ... split one of its pages lies
+    directly between the two halves, at the 2nd, 4th, ... none does (plain spanning)."""
+    p, m = link(kind, serial, 'flush', **over)
+    pg = parse_pages(open(p, 'rb').read())
+    pk = packets_of(pg, m['serial'])
+    aud = pk[3:]
+    out = [pg[0]]
+    fseq = [0]
+    def lace(n):
+        l = []
+        while n >= 255:
+            l.append(255); n -= 255
+        l.append(n)
+        return l
+    def fpage(flags=0):
+        body = b'notvorb\0' + bytes([fseq[0] & 255]) * (80 + 13 * (fseq[0] % 7))
+        out.append(Page(flags, fseq[0] * 10, fserial, fseq[0], lace(len(body)), body))
+        fseq[0] += 1
+    fpage(2)
+    out.extend(x for x in pg[1:] if x.offset < pg[aud[0][2]].offset)
+    seq = [max(x.seq for x in out if x.serial == m['serial']) + 1]
+    cur = {'lac': [], 'body': b'', 'g': -1, 'cont': 0}
+    def flush(eos=False):
+        if not cur['lac']:
+            return
+        out.append(Page((1 if cur['cont'] else 0) | (4 if eos else 0), cur['g'], m['serial'], seq[0], cur['lac'], cur['body']))
+        seq[0] += 1
+        cur.update(lac=[], body=b'', g=-1, cont=0)
+    nsplit = cnt = 0
+    for i, (b, g, _, _) in enumerate(aud):
+        last = i == len(aud) - 1
+        if i % every == every - 2 and len(b) >= 256 and not last:
+            cur['lac'].append(255); cur['body'] += b[:255]
+            flush()
+            if nsplit % 2 == 0:
+                fpage()
+            cur.update(lac=lace(len(b) - 255), body=b[255:], g=g, cont=1)
+            flush()
+            nsplit += 1
+            cnt = 0
+            continue
+        cur['lac'] += lace(len(b)); cur['body'] += b; cur['g'] = g
+        cnt += 1
+        if cnt == per_page or last:
+            flush(last)
+            cnt = 0
+            if not last and seq[0] % 3 == 0:
+                fpage()
+    fpage(4)
+    assert nsplit >= 2, 'no packet long enough to split'
+    blob = b''.join(x.encode() for x in out)
+    name = f'XS_{kind}_{serial}_{per_page}_{every}_' + '_'.join(f'{k}{v}' for k, v in sorted(over.items()))
+    path = write_file(name + '.ogg', blob)
+    m = dict(m)
+    m.update({'file': path, 'bytes': len(blob), 'pages': len(out), 'foreign': fserial, 'splits': nsplit})
+    return path, m
+
+
 def make_chain(name, kinds, pages='natural', serial0=100):
     links = [link(k, serial0 + i, pages if not isinstance(pages, (list, tuple)) else pages[i]) for i, k in enumerate(kinds)]
     return chain(name, links)
@@ -213,6 +273,12 @@ def halfrate_refusal_files():
 def large_files():
     """chains with links above CHUNKSIZE (65536): the seek code switches from linear scans to real bisection and backward hops"""
     return {'FB': chain('FB', [link('M', 981, 'natural'), link('A', 982, '3'), link('N', 983, 'natural')])}
+
+
+def mux_files():
+    """multiplexed links with packets split over two pages (tail-only pages, foreign page between the halves or not), alone and inside a chain"""
+    return {'FX': chain('FX', [mux_split('E', 991, n=9000, q=0.8)]),
+            'FX2': chain('FX2', [link('A', 992, '3'), mux_split('E', 993, per_page=3, every=4, n=9000, q=0.8), link('B', 994, '3')])}
 
 
 def standard_files():
